@@ -1559,10 +1559,10 @@ m("C20", "text-file-always-utf8", ZT,
 m("C20", "visit-text-always-escapes", ZP,
   '''            char_escape = ('&', '<', '>') if self.escape else ()
             expression = nodes.Substitution(node, char_escape)
-            return nodes.Interpolation(expression, True, translation)''',
+            # In text mode''',
   '''            char_escape = ('&', '<', '>')
             expression = nodes.Substitution(node, char_escape)
-            return nodes.Interpolation(expression, True, translation)''')
+            # In text mode''')
 m("C20", "text-class-xml-mode", ZT,
   '''    but uses the expression engine to substitute variables.
     """
@@ -1734,7 +1734,7 @@ m("C06", "switch-not-inherited", ZP,
   "            INTERPOLATION = True")
 m("C06", "entities-not-decoded", C,
   '''            translate=node.translation,
-            decode_htmlentities=True
+            decode_htmlentities=node.decode_htmlentities
         )''',
   '''            translate=node.translation,
             decode_htmlentities=False
@@ -1789,10 +1789,12 @@ m("C06", "text-keeps-double-dollar", ZP,
   "        node = node.replace('$$', '$')\n\n        if not translation:",
   "        if not translation:")
 m("C06", "lone-dollar-name-interpolated", ZP,
-  '''            expression = nodes.Substitution(node, char_escape)
-            return nodes.Interpolation(expression, True, translation)''',
-  '''            expression = nodes.Substitution(node, char_escape)
-            return nodes.Interpolation(expression, False, translation)''')
+  '''            return nodes.Interpolation(
+                expression, True, translation,
+                decode_htmlentities=bool(self.escape),''',
+  '''            return nodes.Interpolation(
+                expression, False, translation,
+                decode_htmlentities=bool(self.escape),''')
 m("C06", "refactor-switch-names", ZP,
   "        self._switches.pop()\n        self._interpolation.pop()\n",
   "        self._interpolation.pop()\n        self._switches.pop()\n",
